@@ -12,7 +12,12 @@ Besides the call sites it emits
    and inherits SSIdat's" is an obligation over the source, not a comment;
  * `methods`: per run / mpe / mpe_from_plot / plot_* method the guard it starts with (`super().mpe(...)` or
    `if not self.result: raise ValueError`), the guard's position in the numbering of the sites and stores, and the
-   statements in front of the guard that are more than a docstring or an alias of an argument.
+   statements in front of the guard that are more than a docstring or an alias of an argument;
+ * the wiring of the picking dialog (support/sel_from_plot.py, `translate_dialog`): class-level bindings, and per method
+   the assignments to attributes of self, the calls through self, the event connections (`mpl_connect` / `protocol` /
+   `bind`, with the branch condition on `self.plot` they sit under and the parameters the handler receives) and a
+   behavioural summary of every method (`dialogClasses`, `dassigns`, `dcalls`, `dconnects`, `dmethods`; obligations in
+   Props/WiringPick.lean).
 Output: lean/PyomaVerif/Generated/Wiring.lean.  Regenerated on every run."""
 import ast
 import copy
@@ -366,6 +371,352 @@ def lean_str(s):
     return '"' + s.replace("\\", "\\\\").replace('"', '\\"') + '"'
 
 
+# ----------------------------------------------------------------------------- the picking dialog (support/sel_from_plot.py)
+# For every class of support/sel_from_plot.py: the class-level bindings, and per method (positions count the rows of
+# that method in source order): every assignment to an attribute of `self` (`dassigns`), every call through `self`
+# (`dcalls`: self.root.mainloop(), self._initialize_gui(), self.root.quit() ...), every event connection
+# (`dconnects`: <registry>.mpl_connect(<event>, <handler>) / .protocol / .bind) with the branch condition it sits
+# under (`Cond`: tests of `self.plot` against string constants are structured, anything else is `opaque`), and a
+# summary of every method (`dmethods`: parameters, body text with the parameters renamed positionally, attributes of
+# self it writes, methods of self it calls) so that an obligation can name a handler by what it does.
+CONNECT_ATTRS = {"mpl_connect": 1, "protocol": 0, "bind": 1, "bind_all": 1, "bind_class": 1, "mpl_disconnect": 0, "unbind": 0, "unbind_all": 0}
+MUTATORS = {"append", "pop", "clear", "extend", "insert", "remove", "sort", "reverse", "update", "add", "discard", "setdefault", "popitem"}
+
+
+def _is_self_attr(e):
+    return isinstance(e, ast.Attribute) and isinstance(e.value, ast.Name) and e.value.id == "self"
+
+
+def _cond(test, env):
+    """structured form of a branch test (Lean term of type Cond)"""
+    t = Sub(env).visit(copy.deepcopy(test))
+
+    def is_plot(e):
+        return _is_self_attr(e) and e.attr == "plot"
+
+    def strs(e):
+        if isinstance(e, (ast.Tuple, ast.List, ast.Set)) and all(isinstance(x, ast.Constant) and isinstance(x.value, str) for x in e.elts):
+            return [x.value for x in e.elts]
+        return None
+
+    def go(e):
+        if isinstance(e, ast.UnaryOp) and isinstance(e.op, ast.Not):
+            return f"(.not {go(e.operand)})"
+        if isinstance(e, ast.BoolOp) and len(e.values) >= 2:
+            k = ".and" if isinstance(e.op, ast.And) else ".or"
+            out = go(e.values[0])
+            for v in e.values[1:]:
+                out = f"({k} {out} {go(v)})"
+            return out
+        if isinstance(e, ast.Compare) and len(e.ops) == 1:
+            l, op, r = e.left, e.ops[0], e.comparators[0]
+            if is_plot(l) and isinstance(op, (ast.In, ast.NotIn)) and strs(r) is not None:
+                c = "(.plotIn [" + ", ".join(lean_str(x) for x in strs(r)) + "])"
+                return c if isinstance(op, ast.In) else f"(.not {c})"
+            if isinstance(op, (ast.Eq, ast.NotEq)):
+                v = None
+                if is_plot(l) and isinstance(r, ast.Constant) and isinstance(r.value, str):
+                    v = r.value
+                elif is_plot(r) and isinstance(l, ast.Constant) and isinstance(l.value, str):
+                    v = l.value
+                if v is not None:
+                    c = f"(.plotEq {lean_str(v)})"
+                    return c if isinstance(op, ast.Eq) else f"(.not {c})"
+        return f"(.opaque {lean_str(canon(e, {}))})"
+
+    return go(t)
+
+
+def _blk(stmts, env):
+    """one-line text of a block: `if T: {A; B} else: {C}`; docstrings dropped"""
+    out = []
+    for st in stmts:
+        if isinstance(st, ast.Expr) and isinstance(st.value, ast.Constant) and isinstance(st.value.value, str):
+            continue
+        if isinstance(st, ast.If):
+            t = f"if {canon(st.test, env)}: {{{_blk(st.body, env)}}}"
+            if st.orelse:
+                t += f" else: {{{_blk(st.orelse, env)}}}"
+            out.append(t)
+        elif isinstance(st, (ast.For, ast.While, ast.With, ast.Try, ast.FunctionDef, ast.ClassDef)):
+            out.append("<" + type(st).__name__ + ":" + ast.unparse(st).replace("\n", " ; ")[:80] + ">")
+        else:
+            x = Sub(env).visit(copy.deepcopy(st))
+            ast.fix_missing_locations(x)
+            out.append(ast.unparse(x).replace("\n", " "))
+    return "; ".join(out)
+
+
+class DialogWalker:
+    def __init__(self, cls, fn, methods):
+        self.cls, self.fn, self.methods = cls, fn, methods
+        self.pos = 0
+        self.assigns, self.calls, self.connects = [], [], []
+
+    def row(self):
+        self.pos += 1
+        return self.pos
+
+    # -- expressions: calls through self and event connections, in evaluation order of the source text
+    def scan(self, expr, env, path):
+        if expr is None:
+            return
+        for n in self._calls_in(expr):
+            f = n.func
+            if isinstance(f, ast.Attribute) and f.attr in CONNECT_ATTRS:
+                self.connect(n, env, path)
+                continue
+            if isinstance(f, ast.Name) and f.id in ("setattr", "delattr") and n.args and isinstance(n.args[0], ast.Name) and n.args[0].id == "self":
+                a1 = n.args[1] if len(n.args) > 1 else None
+                name = a1.value if isinstance(a1, ast.Constant) and isinstance(a1.value, str) else "<setattr>"
+                val = canon(n.args[2], env) if len(n.args) > 2 else "<del>"
+                self.assigns.append((self.row(), list(path), "self." + name, val))
+                continue
+            c = canon(f, env)
+            if c.startswith("self.") or c == "self":
+                args = [canon(a, env) for a in n.args] + [f"{k.arg}={canon(k.value, env)}" for k in n.keywords]
+                self.calls.append((self.row(), list(path), c, args))
+
+    def _calls_in(self, expr):
+        """Call nodes of the expression, outermost last (arguments are evaluated first); lambda bodies are not entered"""
+        out = []
+
+        def go(e):
+            if isinstance(e, ast.Lambda):
+                return
+            for ch in ast.iter_child_nodes(e):
+                go(ch)
+            if isinstance(e, ast.Call):
+                out.append(e)
+
+        go(expr)
+        return out
+
+    def connect(self, call, env, path):
+        kind = call.func.attr
+        registry = canon(call.func.value, env)
+        args = list(call.args) + [k.value for k in call.keywords]
+        ev = args[0] if args else None
+        event = ev.value if isinstance(ev, ast.Constant) and isinstance(ev.value, str) else (canon(ev, env) if ev is not None else "")
+        h = args[-1] if len(args) >= 2 else None
+        nargs = CONNECT_ATTRS[kind]
+        handler, hbind = "", []
+        if h is not None:
+            hs = Sub(env).visit(copy.deepcopy(h))
+            given = None
+            if _is_self_attr(hs) and hs.attr in self.methods:
+                handler, given = hs.attr, [ast.Name(id="<event>", ctx=ast.Load())][:nargs]
+            elif isinstance(hs, ast.Lambda) and isinstance(hs.body, ast.Call) and _is_self_attr(hs.body.func) and hs.body.func.attr in self.methods \
+                    and not hs.args.vararg and not hs.args.kwarg and not hs.body.keywords and not any(isinstance(a, ast.Starred) for a in hs.body.args):
+                lp = [x.arg for x in hs.args.posonlyargs + hs.args.args]
+                lenv = {p_: ast.Name(id="<event>" if i == 0 else f"<arg{i}>", ctx=ast.Load()) for i, p_ in enumerate(lp)}
+                if len(lp) == nargs or (len(lp) > nargs and len(hs.args.defaults) >= len(lp) - nargs):
+                    handler = hs.body.func.attr
+                    given = [Sub(lenv).visit(copy.deepcopy(a)) for a in hs.body.args]
+            if handler:
+                params = self.methods[handler]
+                hbind = [(params[i] if i < len(params) else f"?pos{i}", canon(a, {})) for i, a in enumerate(given)]
+            else:
+                hbind = [("?", canon(hs, {}))]
+        self.connects.append((self.row(), list(path), kind, registry, event, handler, hbind))
+
+    # -- statements
+    def target(self, tgt, val, env, path):
+        if isinstance(tgt, (ast.Tuple, ast.List)):
+            for i, e in enumerate(tgt.elts):
+                if isinstance(val, (ast.Tuple, ast.List)) and len(val.elts) == len(tgt.elts) and not any(isinstance(x, ast.Starred) for x in val.elts + tgt.elts):
+                    self.target(e, val.elts[i], env, path)
+                else:
+                    self.target(e, ast.Name(id=f"({canon(val, env)})#{i}"[:MAXLEN], ctx=ast.Load()), env, path)
+            return
+        if isinstance(tgt, ast.Starred):
+            tgt = tgt.value
+        if isinstance(tgt, ast.Name):
+            if simple(val):
+                env[tgt.id] = Sub(env).visit(copy.deepcopy(val))
+            else:
+                env[tgt.id] = ast.Name(id=f"<{canon(val, env)[:80]}>", ctx=ast.Load())
+            return
+        t = canon(tgt, env)
+        if t.startswith("self."):
+            self.assigns.append((self.row(), list(path), t, canon(val, env)))
+
+    def body(self, stmts, env, path):
+        for st in stmts:
+            self.stmt(st, env, path)
+
+    def stmt(self, st, env, path):
+        if isinstance(st, ast.Assign):
+            self.scan(st.value, env, path)
+            for tgt in st.targets:
+                self.target(tgt, st.value, env, path)
+        elif isinstance(st, ast.AnnAssign):
+            if st.value is not None:
+                self.scan(st.value, env, path)
+                self.target(st.target, st.value, env, path)
+        elif isinstance(st, ast.AugAssign):
+            self.scan(st.value, env, path)
+            t = canon(st.target, env)
+            if t.startswith("self."):
+                self.assigns.append((self.row(), list(path), t, f"<{type(st.op).__name__}>= {canon(st.value, env)}"))
+            elif isinstance(st.target, ast.Name):
+                env[st.target.id] = ast.Name(id=f"<aug:{st.target.id}>", ctx=ast.Load())
+        elif isinstance(st, ast.Delete):
+            for tgt in st.targets:
+                t = canon(tgt, env)
+                if t.startswith("self."):
+                    self.assigns.append((self.row(), list(path), t, "<del>"))
+        elif isinstance(st, ast.If):
+            self.scan(st.test, env, path)
+            c = _cond(st.test, env)
+            e1, e2 = dict(env), dict(env)
+            self.body(st.body, e1, path + [c])
+            self.body(st.orelse, e2, path + [f"(.not {c})"])
+            for name in set(e1) | set(e2):
+                a, b = e1.get(name), e2.get(name)
+                if a is None or b is None or ast.unparse(a) != ast.unparse(b):
+                    env[name] = ast.Name(id=f"<if:{name}>", ctx=ast.Load())
+                else:
+                    env[name] = a
+        elif isinstance(st, (ast.For, ast.AsyncFor, ast.While)):
+            self.scan(st.iter if hasattr(st, "iter") else st.test, env, path)
+            for n in ast.walk(st):
+                if isinstance(n, ast.Name) and isinstance(n.ctx, ast.Store):
+                    env[n.id] = ast.Name(id=f"<loop:{n.id}>", ctx=ast.Load())
+            p2 = path + [f"(.opaque {lean_str('<' + type(st).__name__ + '>')})"]
+            self.body(st.body, env, p2)
+            self.body(st.orelse, env, p2)
+        elif isinstance(st, (ast.With, ast.AsyncWith)):
+            for it in st.items:
+                self.scan(it.context_expr, env, path)
+                if it.optional_vars is not None:
+                    for n in ast.walk(it.optional_vars):
+                        if isinstance(n, ast.Name):
+                            env[n.id] = ast.Name(id=f"<with:{n.id}>", ctx=ast.Load())
+            self.body(st.body, env, path)
+        elif isinstance(st, ast.Try):
+            p2 = path + [f"(.opaque {lean_str('<Try>')})"]
+            self.body(st.body, env, p2)
+            for h in st.handlers:
+                self.body(h.body, env, p2)
+            self.body(st.orelse, env, p2)
+            self.body(st.finalbody, env, path)
+        elif isinstance(st, (ast.Expr, ast.Return)):
+            self.scan(st.value, env, path)
+        elif isinstance(st, (ast.Raise, ast.Assert)):
+            for ch in ast.iter_child_nodes(st):
+                self.scan(ch, env, path)
+        elif isinstance(st, (ast.FunctionDef, ast.AsyncFunctionDef, ast.ClassDef, ast.Pass, ast.Import, ast.ImportFrom, ast.Global, ast.Nonlocal, ast.Break, ast.Continue)):
+            pass
+        else:
+            self.calls.append((self.row(), list(path), "<" + type(st).__name__ + ">", []))
+
+
+def _method_summary(fn, method_names):
+    a = fn.args
+    params = [x.arg for x in a.posonlyargs + a.args][1:] + ([("*" + a.vararg.arg)] if a.vararg else []) + [x.arg for x in a.kwonlyargs] + ([("**" + a.kwarg.arg)] if a.kwarg else [])
+    env = {p_: ast.Name(id=f"${i + 1}", ctx=ast.Load()) for i, p_ in enumerate([x.arg for x in a.posonlyargs + a.args][1:])}
+    body = _blk(fn.body, env)
+    if len(body) > 300:
+        body = body[:300] + "..."
+    writes, calls = [], []
+    for n in ast.walk(fn):
+        if isinstance(n, ast.Attribute) and _is_self_attr(n) and isinstance(n.ctx, (ast.Store, ast.Del)):
+            writes.append(n.attr)
+        if isinstance(n, (ast.Subscript, ast.Attribute)) and isinstance(n.ctx, (ast.Store, ast.Del)) and not _is_self_attr(n):
+            b = n.value
+            while isinstance(b, (ast.Subscript, ast.Attribute)) and not _is_self_attr(b):
+                b = b.value
+            if _is_self_attr(b):
+                writes.append(b.attr)
+        if isinstance(n, ast.Call) and isinstance(n.func, ast.Attribute):
+            if n.func.attr in MUTATORS and _is_self_attr(n.func.value):
+                writes.append(n.func.value.attr)
+            if _is_self_attr(n.func) and n.func.attr in method_names:
+                calls.append(n.func.attr)
+        if isinstance(n, ast.Call) and isinstance(n.func, ast.Name) and n.func.id in ("setattr", "delattr") and n.args and isinstance(n.args[0], ast.Name) and n.args[0].id == "self":
+            a1 = n.args[1] if len(n.args) > 1 else None
+            writes.append(a1.value if isinstance(a1, ast.Constant) and isinstance(a1.value, str) else "<setattr>")
+    uniq = lambda xs: [x for i, x in enumerate(xs) if x not in xs[:i]]  # noqa: E731
+    return params, body, sorted(set(writes)), uniq(calls)
+
+
+def translate_dialog(repo, bound_names, class_attrs, base_name):
+    """Lean text of the dialog tables (appended to Generated/Wiring.lean) and a summary"""
+    sup = os.path.join(repo, "src", "pyoma2", "support", "sel_from_plot.py")
+    classes_out, assigns, calls, connects, methods = [], [], [], [], []
+    if os.path.exists(sup):
+        tree = ast.parse(open(sup).read())
+        cnames = {c.name for c in tree.body if isinstance(c, ast.ClassDef)}
+        patches = {}
+        for st in tree.body:
+            if isinstance(st, (ast.ClassDef, ast.FunctionDef, ast.Import, ast.ImportFrom)):
+                continue
+            for n in ast.walk(st):
+                if isinstance(n, ast.Attribute) and isinstance(n.ctx, (ast.Store, ast.Del)) and isinstance(n.value, ast.Name) and n.value.id in cnames:
+                    patches.setdefault(n.value.id, []).append(n.attr)
+                if isinstance(n, ast.Call) and isinstance(n.func, ast.Name) and n.func.id in ("setattr", "delattr") and n.args \
+                        and isinstance(n.args[0], ast.Name) and n.args[0].id in cnames:
+                    a1 = n.args[1] if len(n.args) > 1 else None
+                    patches.setdefault(n.args[0].id, []).append(a1.value if isinstance(a1, ast.Constant) and isinstance(a1.value, str) else "<setattr>")
+        for c in tree.body:
+            if not isinstance(c, ast.ClassDef):
+                continue
+            classes_out.append({"name": c.name, "module": "sel_from_plot", "bases": [base_name(b) for b in c.bases],
+                                "own": bound_names(c) + patches.get(c.name, []), "attrs": class_attrs(c),
+                                "extras": [canon(d, {}) for d in c.decorator_list] + [f"{k.arg}={canon(k.value, {})}" for k in c.keywords]})
+            fns = [m for m in c.body if isinstance(m, (ast.FunctionDef, ast.AsyncFunctionDef))]
+            msig = {}
+            for m in fns:
+                msig[m.name] = [x.arg for x in m.args.posonlyargs + m.args.args][1:]
+            for m in fns:
+                w = DialogWalker(c.name, m, msig)
+                w.body(m.body, {}, [])
+                assigns += [(c.name, m.name) + r for r in w.assigns]
+                calls += [(c.name, m.name) + r for r in w.calls]
+                connects += [(c.name, m.name) + r for r in w.connects]
+                params, body, writes, scalls = _method_summary(m, set(msig))
+                methods.append((c.name, m.name, params, [canon(d, {}) for d in m.decorator_list], body, writes, scalls))
+    ls = lambda xs: "[" + ", ".join(lean_str(x) for x in xs) + "]"  # noqa: E731
+    lc = lambda cs: "[" + ", ".join(cs) + "]"  # noqa: E731
+    out = ["/-! ## the picking dialog: support/sel_from_plot.py -/", "",
+           "inductive Cond where", "  | plotIn (vals : List String)", "  | plotEq (v : String)", "  | not (c : Cond)", "  | and (a b : Cond)",
+           "  | or (a b : Cond)", "  | opaque (src : String)", "deriving DecidableEq, Repr", "",
+           "structure DAssign where", "  cls : String", "  method : String", "  pos : Nat", "  cond : List Cond", "  target : String", "  value : String",
+           "deriving DecidableEq, Repr", "",
+           "structure DCall where", "  cls : String", "  method : String", "  pos : Nat", "  cond : List Cond", "  callee : String", "  args : List String",
+           "deriving DecidableEq, Repr", "",
+           "structure DConnect where", "  cls : String", "  method : String", "  pos : Nat", "  cond : List Cond", "  kind : String", "  registry : String",
+           "  event : String", "  handler : String", "  hbind : List (String × String)", "deriving DecidableEq, Repr", "",
+           "structure DMethod where", "  cls : String", "  name : String", "  params : List String", "  decorators : List String", "  body : String",
+           "  writes : List String", "  selfCalls : List String", "deriving DecidableEq, Repr", ""]
+    out.append("def dialogClasses : List ClassInfo := [")
+    out.append(",\n".join(
+        f"  {{ name := {lean_str(c['name'])}, module := {lean_str(c['module'])}, bases := {ls(c['bases'])},\n    own := {ls(c['own'])},\n"
+        f"    attrs := [{', '.join(f'({lean_str(k)}, {lean_str(v)})' for k, v in c['attrs'])}], extras := {ls(c['extras'])} }}" for c in classes_out) + "]")
+    out.append("")
+    out.append("def dassigns : List DAssign := [")
+    out.append(",\n".join(f"  {{ cls := {lean_str(a)}, method := {lean_str(b)}, pos := {p}, cond := {lc(cd)}, target := {lean_str(t)}, value := {lean_str(v)} }}"
+                          for (a, b, p, cd, t, v) in assigns) + "]")
+    out.append("")
+    out.append("def dcalls : List DCall := [")
+    out.append(",\n".join(f"  {{ cls := {lean_str(a)}, method := {lean_str(b)}, pos := {p}, cond := {lc(cd)}, callee := {lean_str(f)}, args := {ls(ar)} }}"
+                          for (a, b, p, cd, f, ar) in calls) + "]")
+    out.append("")
+    out.append("def dconnects : List DConnect := [")
+    out.append(",\n".join(
+        f"  {{ cls := {lean_str(a)}, method := {lean_str(b)}, pos := {p}, cond := {lc(cd)}, kind := {lean_str(k)}, registry := {lean_str(r)},\n"
+        f"    event := {lean_str(e)}, handler := {lean_str(h)}, hbind := [{', '.join(f'({lean_str(x)}, {lean_str(y)})' for x, y in hb)}] }}"
+        for (a, b, p, cd, k, r, e, h, hb) in connects) + "]")
+    out.append("")
+    out.append("def dmethods : List DMethod := [")
+    out.append(",\n".join(
+        f"  {{ cls := {lean_str(a)}, name := {lean_str(n)}, params := {ls(ps)}, decorators := {ls(ds)},\n    body := {lean_str(bd)},\n"
+        f"    writes := {ls(ws)}, selfCalls := {ls(sc)} }}" for (a, n, ps, ds, bd, ws, sc) in methods) + "]")
+    out.append("")
+    return out, {"dassigns": len(assigns), "dcalls": len(calls), "dconnects": len(connects), "dmethods": len(methods)}
+
+
 def translate(repo):
     fdir = os.path.join(repo, "src", "pyoma2", "functions")
     sigs = _sig(fdir)
@@ -496,8 +847,10 @@ def translate(repo):
         f"  {{ cls := {lean_str(m['cls'])}, method := {lean_str(m['method'])}, guardKind := {lean_str(m['guard'][0])}, guardArg := {lean_str(m['guard'][1])}, "
         f"guardPos := {m['guard'][2]}, pre := {ls(m['pre'])}, decorators := {ls(m['decorators'])} }}" for m in methods_out) + "]")
     out.append("")
+    dlg, dsum = translate_dialog(repo, bound_names, class_attrs, base_name)
+    out += dlg
     out.append("end PV.Wiring.Gen")
-    return "\n".join(out) + "\n", {"sites": len(sites), "stores": len(stores), "classes": len(classes_out), "methods": len(methods_out)}
+    return "\n".join(out) + "\n", dict({"sites": len(sites), "stores": len(stores), "classes": len(classes_out), "methods": len(methods_out)}, **dsum)
 
 
 def write(repo, lean_dir):
